@@ -108,6 +108,42 @@ pub fn for_each_satisfaction<FP, FF>(
             );
         }
     }
+    // flow 3: the order a wallet uses. The party claims every time lock is acceptable, the
+    // plan reports which ones it needs, the transaction is built with EXACTLY those values
+    // (nLockTime 0 / final sequence when none is reported), then signed and completed.
+    for km in kms.iter().rev().take(3) {
+        let pm = *pms.last().unwrap();
+        for mall in [false, true] {
+            let probe_spend = Spend::simple(bitcoin::ScriptBuf::from_bytes(target.spk.clone()), 0, 0xffff_ffff);
+            let mut probe = make_assets(world, &probe_spend, target, case, *km, pm);
+            probe.force_timelocks = Some(true);
+            let sat = satisfier(&probe, target);
+            let plan = match guarded(std::panic::AssertUnwindSafe(|| if mall { desc.clone().into_plan_mall(&sat) } else { desc.clone().into_plan(&sat) })) {
+                Ok(Ok(p)) => p,
+                Ok(Err(_)) => continue,
+                Err(msg) => {
+                    rep.violation(case_idx, format!("{}:panic:into_plan:{}", rep.cfg.prop, norm_loc(&last_panic_loc())), format!("into_plan panicked ({}) on {}", msg, case.desc));
+                    continue;
+                }
+            };
+            let lt = plan.absolute_timelock.map(|l| l.to_consensus_u32()).unwrap_or(0);
+            let seq = plan
+                .relative_timelock
+                .map(|l| l.to_consensus_u32())
+                .unwrap_or(if plan.absolute_timelock.is_some() { 0xffff_fffe } else { 0xffff_ffff });
+            let spend = Spend::simple(bitcoin::ScriptBuf::from_bytes(target.spk.clone()), lt, seq);
+            let mut assets = make_assets(world, &spend, target, case, *km, pm);
+            assets.force_timelocks = Some(true);
+            let r3 = guarded(std::panic::AssertUnwindSafe(|| {
+                let sat = satisfier(&assets, target);
+                plan.satisfy(&sat)
+            }));
+            handle(
+                world, rep, case_idx, run, "plan-reported-locktimes", mall, r3, &spend, &assets, *km, pm, lt, seq,
+                &mut on_produced, &mut on_failed,
+            );
+        }
+    }
 }
 
 #[allow(clippy::too_many_arguments)]
